@@ -109,7 +109,7 @@ func (c *stepCtx) runStep(k int, st map[string]interface{}) []string {
 	}
 	switch str(st, "op", "") {
 	case "size":
-		return []string{c.stepSize(st)}
+		return []string{c.stepSize(k, st)}
 	case "encode":
 		return []string{c.stepEncode(k, st)}
 	case "encsweep":
@@ -280,8 +280,14 @@ func callDecode(buf []byte, v interface{}) (n int, err error, pan interface{}) {
 	return
 }
 
-func (c *stepCtx) stepSize(st map[string]interface{}) string {
+func (c *stepCtx) stepSize(k int, st map[string]interface{}) string {
 	ty, holder, iface := c.arg(st)
+	if boolean(st, "keep") && c.objs != nil && c.snaps != nil {
+		// the caller keeps using the value it passed (by pointer): a later recheck shows whether anything touched it
+		c.objs[k] = holder
+		c.objTy[k] = ty
+		c.snaps[k] = valueDigestNoNocopy(ty, holder)
+	}
 	byval := boolean(st, "byval")
 	pre := argDigest(ty, holder, iface, byval)
 	n, pan := callSize(iface)
